@@ -47,6 +47,7 @@ import DymVerif.Lemmas.GenEqIncent
 import DymVerif.Lemmas.IncentProp
 import DymVerif.Lemmas.IncentDue
 import DymVerif.Lemmas.IncentPagingState
+import DymVerif.Lemmas.IncentLive
 namespace DymVerif.C15
 open DymVerif DymVerif.Incent DymVerif.Incent.Coins
 
@@ -391,6 +392,13 @@ theorem endblock_conserves_settled (s s' : State) (hi : Inv s) (hl : LiveS s) (h
   let ⟨a, b, _, c, d⟩ := endBlock_settled s s' hi hl hp h
   ⟨a, b, c, d⟩
 
+/-- … and the EndBlock keeps `LiveS` (a gauge's liveness reads its start, perpetual flag, filled and total epochs; the
+    EndBlock writes back cached copies of live gauges with more coins / distributed coins only), so the three
+    hypotheses of `endblock_conserves_settled` hold again in the next block -/
+theorem endblock_keeps_live (s s' : State) (hi : Inv s) (hl : LiveS s) (hp : PtrsOKS s) (h : streamerEndBlock s = .ok s') :
+    Inv s' ∧ LiveS s' ∧ PtrsOKS s' :=
+  ⟨endBlock_inv s s' hi h, endBlock_live s s' hi hl hp h, (endBlock_settled s s' hi hl hp h).2.2.2.2⟩
+
 /-- one block of a schedule IS the two operations `setMaxIter n; end` -/
 theorem block_is_two_ops (s s' : State) (n : Nat) (hh : s.halted = false) (h : streamerEndBlock { s with maxIter := n } = .ok s') :
     (step (step s (.setMaxIter n)).2 .end_) = (.ok, s') := by
@@ -419,7 +427,7 @@ theorem epoch_end_realises_settled (s s' : State) (e : Nat) (he : e ≤ 2) (hi :
     (`stream_bounded_retarget_counterexample`); `hsmall`: lock count × record count below 2^64-1 (the epoch-end budget). -/
 theorem paging_state_independent (s : State) (e : Nat) (he : e ≤ 2) (hi : Inv s) (hp : PtrsOKS s)
     (hsmall : (s.locks.length + 1) * totalRecs (dataOf s) < maxU64)
-    (ns1 ns2 : List Nat) (t1 t2 u1 u2 : State) (hl1 : LiveAlong s ns1) (hl2 : LiveAlong s ns2)
+    (ns1 ns2 : List Nat) (t1 t2 u1 u2 : State) (hl : LiveS s)
     (h1 : runBlocks s ns1 = some t1) (h2 : runBlocks s ns2 = some t2)
     (f1 : streamerAfterEpochEnd t1 e = .ok u1) (f2 : streamerAfterEpochEnd t2 e = .ok u2) :
     ∀ st0 ∈ s.streams, st0.id ∈ s.active.ids → st0.epochId = e →
@@ -437,8 +445,8 @@ theorem paging_state_independent (s : State) (e : Nat) (he : e ≤ 2) (hi : Inv 
       (by rw [hid1, r4]; exact ha) (by rw [a2]; exact hep)
     refine ⟨D, ?_, fun i => (d2 i).trans (a3 i)⟩
     rw [← hid1, d1, a2]
-  obtain ⟨D1, p1, q1⟩ := side ns1 t1 u1 hl1 h1 f1
-  obtain ⟨D2, p2, q2⟩ := side ns2 t2 u2 hl2 h2 f2
+  obtain ⟨D1, p1, q1⟩ := side ns1 t1 u1 (liveAlong_of_live ns1 s hi hp hl) h1 f1
+  obtain ⟨D2, p2, q2⟩ := side ns2 t2 u2 (liveAlong_of_live ns2 s hi hp hl) h2 f2
   refine ⟨_, _, p1, p2, ?_, ?_⟩
   · unfold Stream.atEpochEnd
     split <;> rfl
